@@ -210,14 +210,14 @@ PROPS["C13"] = P(
         J("c13_locale_glue_lang2", tier="x", unwind=5, uw=glue_uw(2, 1), stubs=TLIST_STUBS, desc="Locale::from_bytes vs LanguageIdentifier::from_bytes on every 2-byte string without separator (symbolic language through the real parse_locale)", weight=3, mem_gb=30, cbmc=NOPTR),
         J("c13_locale_glue_lang3", tier="x", unwind=6, uw=glue_uw(3, 1), stubs=TLIST_STUBS, desc="same on every 3-byte string without separator", weight=3, mem_gb=16, cbmc=NOPTR),
         J("c13_locale_glue_lang2_us", tier="x", unwind=8, uw=glue_uw(5, 2), stubs=TLIST_STUBS, desc="same on '??-US', ?? any two non-separator bytes", weight=4, mem_gb=24, cbmc=NOPTR),
-        J("c13_prefix_2", tier="t", unwind=6, uw=tok_uw(2), stubs=PARSER_STUBS, desc="2 x T9: the permissive entry's result equals the strict parse of the consumed prefix", weight=2, mem_gb=30),
+        J("c13_prefix_2", tier="x", unwind=6, uw=tok_uw(2), stubs=PARSER_STUBS, desc="2 x T9: the permissive entry's result equals the strict parse of the consumed prefix", weight=2, mem_gb=30),
         J("c13_prefix_3", tier="x", unwind=6, uw=tok_uw(3), stubs=PARSER_STUBS, desc="3 x T9", weight=3, mem_gb=40),
         J("c13_extmap_exhausted", unwind=6, uw=ext_uw(1), stubs=EXT_STUBS, desc="ExtensionsMap::try_from_iter on an exhausted iterator is Ok(empty)"),
         J("c13_locale_glue_en_us", tier="x", unwind=8, uw=glue_uw(5, 2), stubs=TLIST_STUBS, desc="Locale::from_bytes vs LanguageIdentifier::from_bytes on 'en?US', ? any byte", weight=3, mem_gb=30, cbmc=NOPTR),
         J("c13_locale_glue_en_x_ab", tier="x", unwind=10, uw=glue_uw(7, 3), stubs=TLIST_STUBS, desc="same on 'en?x?ab'", weight=4, mem_gb=24, cbmc=NOPTR),
         J("c13_conversions", unwind=6, uw=VAL_UW, desc="From/Into/AsRef between LanguageIdentifier and Locale, any langid with <=2 variants"),
     ],
-    bounds="token level, each subtag " + T9 + ": both real entries in one query on 1..2 subtags (quick) / 3 (thorough); decomposed through the reference on 1..3 subtags (quick) / 4 (thorough): real permissive entry == reference permissive parse, reference lemma (permissive == strict parse of the consumed prefix; strict success => permissive success with nothing left) on 2..4 subtags, C02 for the strict entry; extension parser on an exhausted iterator; conversions: any langid with <= 2 variants. thorough: both real from_bytes on every 1-byte string with the extension parser cut for non-exhausted iterators (the real parse_locale glue on extension-free inputs)",
+    bounds="token level, each subtag " + T9 + ": both real entries in one query on 1..2 subtags (quick) / 3 (thorough, first clause); decomposed through the reference on 1..3 subtags (quick) / 4 (thorough): real permissive entry == reference permissive parse, reference lemma (permissive == strict parse of the consumed prefix; strict success => permissive success with nothing left) on 2..4 subtags, C02 for the strict entry; extension parser on an exhausted iterator; conversions: any langid with <= 2 variants. thorough: both real from_bytes on every 1-byte string with the extension parser cut for non-exhausted iterators (the real parse_locale glue on extension-free inputs)",
     outside="inputs with more than 4 subtags; subtags longer than 9 bytes; the three-line glue of parse_locale (language id, then extensions on the same iterator) is only exercised by the thorough byte-level frames - a quick run decides the two token-level entries it calls, not the glue itself; byte-level glue on strings of 2+ bytes was measured out of reach",
 )
 
@@ -244,16 +244,16 @@ PROPS["C06"] = P(
         J("c06_kv_script_region", unwind=6, uw=LK_UW, desc="all 215 SCRIPT_REGION keys"),
         J("c06_kv_lang_region", unwind=6, uw=LK_UW, desc="all 62 LANG_REGION keys"),
         J("c06_kv_lang_script", unwind=6, uw=LK_UW, desc="all 378 LANG_SCRIPT keys"),
-        J("c06_kv_lang_only", tier="t", unwind=6, uw=LK_UW, desc="all 7142 LANG_ONLY keys except bare und", weight=5, mem_gb=40, cbmc=["--no-pointer-check"], trace=False, timeout_t=5400),
+        J("c06_kv_lang_only", tier="x", unwind=6, uw=LK_UW, desc="all 7142 LANG_ONLY keys except bare und", weight=5, mem_gb=40, cbmc=["--no-pointer-check"], trace=False, timeout_t=5400),
         J("c06_cascade_und", unwind=6, uw=LK_UW, desc="arbitrary (und, script?, region?) vs reference cascade over the three und tables", weight=2),
         J("c06_cascade_zh", unwind=6, uw=LK_UW, desc="(zh, script?, region?) vs reference cascade: concrete language with language-region and language-script entries", weight=2),
         J("c06_cascade_sr", unwind=6, uw=LK_UW, desc="(sr, script?, region?) vs reference cascade", weight=2),
         J("c06_cascade_unknown_qaa", unwind=6, uw=LK_UW, desc="(qaa = a language without CLDR entry, script?, region?): unchanged or a fallback that keeps the given subtags", weight=2),
-        J("c06_cascade_lang", tier="t", unwind=6, uw=LK_UW, desc="arbitrary (language, script?, region?) vs reference cascade incl. the 7143-row table", weight=5, mem_gb=40, cbmc=["--no-pointer-check"], trace=False, timeout_t=5400),
+        J("c06_cascade_lang", tier="x", unwind=6, uw=LK_UW, desc="arbitrary (language, script?, region?) vs reference cascade incl. the 7143-row table", weight=5, mem_gb=40, cbmc=["--no-pointer-check"], trace=False, timeout_t=5400),
         J("c06_wrapper_und", unwind=6, uw=mk(VAL_UW, LK_UW), desc="LanguageIdentifier::maximize bool + write-back, und language, <=1 variant", weight=2),
     ],
-    bounds="K->V: every row of the five small tables (quick) and of LANG_ONLY (thorough) by symbolic index; cascade: every valid (script?, region?) with und language (quick), every valid (language, script?, region?) (thorough)",
-    outside="quick tier does not touch the 7143-row language table; bare 'und' key; UTS #35 fallbacks the library does not implement are accepted either way (property text)",
+    bounds="K->V: every row of the five small tables by symbolic index; cascade: every valid (script?, region?) with und language and with the concrete languages zh, sr and qaa (unknown to CLDR)",
+    outside="arbitrary symbolic languages, i.e. lookups in the 7143-row language table with a symbolic key (K->V over LANG_ONLY and the arbitrary-language cascade are kept for reference, not verified to completion in the final session); that table's content is decided row by row under C18; bare 'und' key; UTS #35 fallbacks the library does not implement are accepted either way (property text)",
     assumptions=["reference tables are re-derived from data/likelySubtags.json by tools/cldr_ref.py on every run; C18 decides that the compiled tables equal them"],
 )
 PROPS["C07"] = P(
@@ -261,24 +261,24 @@ PROPS["C07"] = P(
         J("c07_laws_und", unwind=6, uw=LK_UW, desc="kept subtags, all three filled, second maximize is None; arbitrary (und, script?, region?)"),
         J("c07_laws_zh", unwind=6, uw=LK_UW, desc="the same laws for the concrete language zh, every valid (script?, region?)", weight=2),
         J("c07_laws_unknown_qaa", unwind=6, uw=LK_UW, desc="same for qaa, a language without CLDR entry (must never be replaced by a table language)", weight=2),
-        J("c07_laws_lang", tier="t", unwind=6, uw=LK_UW, desc="same for arbitrary non-empty language (touches the 7143-row table)", weight=5, mem_gb=40, cbmc=["--no-pointer-check"], trace=False, timeout_t=5400),
-        J("c07_full_is_fixpoint", tier="t", unwind=6, uw=LK_UW, desc="language+script+region all present => maximize is None / false / unchanged (closes idempotence); the language's emptiness is a niche value of its first byte, so CBMC also explores the table branch", weight=5, mem_gb=40, cbmc=["--no-pointer-check"], trace=False, timeout_t=5400),
+        J("c07_laws_lang", tier="x", unwind=6, uw=LK_UW, desc="same for arbitrary non-empty language (touches the 7143-row table)", weight=5, mem_gb=40, cbmc=["--no-pointer-check"], trace=False, timeout_t=5400),
+        J("c07_full_is_fixpoint", tier="x", unwind=6, uw=LK_UW, desc="language+script+region all present => maximize is None / false / unchanged (closes idempotence); the language's emptiness is a niche value of its first byte, so CBMC also explores the table branch", weight=5, mem_gb=40, cbmc=["--no-pointer-check"], trace=False, timeout_t=5400),
         J("c07_wrapper_und", unwind=6, uw=mk(VAL_UW, LK_UW), desc="LanguageIdentifier::maximize: variants untouched, bool<=>changed, false=>unchanged, idempotent; und language, <=2 variants", weight=3, mem_gb=12),
     ],
-    bounds="every valid (script?, region?) with und language and with the concrete languages zh and qaa (unknown to CLDR) (quick); every valid (language, script?, region?) (thorough); wrapper with 0..2 variants",
-    outside="Locale extensions attached to the identifier (Locale.id is a plain LanguageIdentifier field; extension state is not reachable from LanguageIdentifier::maximize)",
+    bounds="every valid (script?, region?) with und language and with the concrete languages zh and qaa (unknown to CLDR) ; wrapper with 0..2 variants",
+    outside="arbitrary symbolic languages (7143-row table with a symbolic key: harnesses kept for reference, not verified to completion), hence idempotence is decided as 'all three present afterwards' only; Locale extensions attached to the identifier (Locale.id is a plain LanguageIdentifier field; extension state is not reachable from LanguageIdentifier::maximize)",
 )
 PROPS["C14"] = P(
     jobs=[
         J("c14_rows_direct", unwind=6, uw=LK_UW, desc="symbolic row over the CLDR locale directories whose answer needs no likely script"),
         J("c14_rows_direct", cfg="nolikely", unwind=6, uw=LK_UW, desc="same rows, built without the likelysubtags feature"),
-        J("c14_rows_likely", tier="t", unwind=6, uw=LK_UW, desc="script-less rows of RTL-listed languages, likelysubtags on (7143-row table)", weight=5, mem_gb=40, cbmc=["--no-pointer-check"], trace=False, timeout_t=5400),
+        J("c14_rows_likely", tier="x", unwind=6, uw=LK_UW, desc="script-less rows of RTL-listed languages, likelysubtags on (7143-row table)", weight=5, mem_gb=40, cbmc=["--no-pointer-check"], trace=False, timeout_t=5400),
         J("c14_rows_likely", cfg="nolikely", unwind=6, uw=LK_UW, desc="same rows without likelysubtags: may differ only for multi-direction languages"),
-        J("c14_script_decides", tier="t", unwind=6, uw=mk(VAL_UW, LK_UW), desc="arbitrary identifier with <=1 variant: listed script decides; unlisted script + non-RTL language => LTR; variants irrelevant (likelysubtags on: the RTL-language branch drags in the 7143-row table)", weight=5, mem_gb=40, cbmc=["--no-pointer-check"], trace=False, timeout_t=5400),
+        J("c14_script_decides", tier="x", unwind=6, uw=mk(VAL_UW, LK_UW), desc="arbitrary identifier with <=1 variant: listed script decides; unlisted script + non-RTL language => LTR; variants irrelevant (likelysubtags on: the RTL-language branch drags in the 7143-row table)", weight=5, mem_gb=40, cbmc=["--no-pointer-check"], trace=False, timeout_t=5400),
         J("c14_script_decides", cfg="nolikely", unwind=6, uw=mk(VAL_UW, LK_UW), desc="same, without likelysubtags", weight=2),
     ],
     bounds="all 709 non-root CLDR locale directories by symbolic row index in both feature configurations; arbitrary valid (language, script?, region?, <=1 variant) for the script/language clauses",
-    outside="arbitrary identifiers of RTL-listed languages without a listed script (their answer is defined only through the rows); quick tier skips the rows that reach the 7143-row table with likelysubtags on",
+    outside="arbitrary identifiers of RTL-listed languages without a listed script (their answer is defined only through the rows); with likelysubtags on, the script-less rows of RTL-listed languages (they reach the 7143-row table with a symbolic key) and the arbitrary-identifier clauses are kept for reference, not verified to completion; both are decided in the configuration without likelysubtags",
 )
 
 def uf(name, lens, tier="q", **kw):
@@ -323,8 +323,8 @@ PROPS["C04"] = P(
         J("c04_langid_display_v0", unwind=6, uw=mk(FMT2, VAL_UW), desc="to_string of any langid without variants == reference serialiser; strict recogniser accepts", weight=2),
         J("c04_langid_display_v2", unwind=6, uw=mk(FMT2, VAL_UW), desc="same with 0..2 variants", weight=3, mem_gb=12),
         J("c04_u_built_attrs", unwind=6, uw=mk(FMT2, C10_UW), stubs=INSREM + EXT_STUBS + STR_STUBS, desc="Display of a -u- list built in place by two set_attribute calls with arbitrary arguments (0..2 attributes, any order / equal) == reference serialisation", weight=3, mem_gb=16, cbmc=NOPTR),
-        J("c04_u_built_kw", tier="t", unwind=6, uw=mk(FMT2, {r"kv_|from_iter|extend|filter_map|FilterMap|GenericShunt|try_fold|try_for_each": 6}, C10_UW), stubs=INSREM + EXT_STUBS + STR_STUBS, desc="same plus one set_keyword (key any 2 bytes, 0..2 types of any bytes): attributes, then key and types", weight=4, mem_gb=24, cbmc=NOPTR),
-        J("c04_t_built", tier="t", unwind=6, uw=mk(FMT2, {r"kv_|from_iter|extend|filter_map|FilterMap|GenericShunt|try_fold|try_for_each": 6}, C10_UW, VAL_UW), stubs=TLIST_STUBS + STR_STUBS, desc="Display of a -t- list built in place: optional tlang (language-region), optional field (key any 2 bytes, 0..2 values)", weight=4, mem_gb=24, cbmc=NOPTR),
+        J("c04_u_built_kw", tier="x", unwind=6, uw=mk(FMT2, {r"kv_|from_iter|extend|filter_map|FilterMap|GenericShunt|try_fold|try_for_each": 6}, C10_UW), stubs=INSREM + EXT_STUBS + STR_STUBS, desc="same plus one set_keyword (key any 2 bytes, 0..2 types of any bytes): attributes, then key and types", weight=4, mem_gb=24, cbmc=NOPTR),
+        J("c04_t_built", tier="x", unwind=6, uw=mk(FMT2, {r"kv_|from_iter|extend|filter_map|FilterMap|GenericShunt|try_fold|try_for_each": 6}, C10_UW, VAL_UW), stubs=TLIST_STUBS + STR_STUBS, desc="Display of a -t- list built in place: optional tlang (language-region), optional field (key any 2 bytes, 0..2 values)", weight=4, mem_gb=24, cbmc=NOPTR),
         J("c04_locale_built", tier="x", unwind=6, uw=mk(FMT2, {r"kv_|from_iter|extend|filter_map|FilterMap|GenericShunt|try_fold|try_for_each": 6}, C10_UW, VAL_UW), stubs=INSREM + TLIST_STUBS + STR_STUBS, desc="whole Locale built in place (language-region id, one attribute, one tfield, one private tag, all arguments arbitrary): id, then t, u, x", weight=5, mem_gb=30, cbmc=NOPTR),
         J("c04_u_display_3_3", tier="x", unwind=6, uw=mk(FMT2, xuw(2)), stubs=EXT_STUBS + STR_STUBS, desc="Display of a -u- list parsed from [S(3),S(3)] (two attributes, any order / equal) == reference serialisation", weight=3, mem_gb=16, cbmc=NOPTR),
         J("c04_u_display_3_2_4", tier="x", unwind=6, uw=mk(FMT2, xuw(3)), stubs=EXT_STUBS + STR_STUBS, desc="-u- list from [S(3),S(2),S(4)] (attribute, key, type)", weight=4, mem_gb=24, cbmc=NOPTR),
@@ -336,8 +336,8 @@ PROPS["C04"] = P(
         J("c04_canonicalize_tokens_2", unwind=6, uw=mk(FMT2, tok_uw(2)), stubs=PARSER_STUBS, desc="token-level canonicalize on 2 x T9: string == reference canonicalisation, not longer than input", weight=3, mem_gb=12),
         J("c04_canonicalize_tokens_3", tier="t", unwind=6, uw=mk(FMT2, tok_uw(3)), stubs=PARSER_STUBS, desc="3 x T9", weight=4, mem_gb=16),
     ],
-    bounds='quick: Display of every valid subtag; to_string of any language identifier with 0..2 variants vs reference serialiser + strict recogniser; token-level canonicalize on 2 fully symbolic subtags; -u- list built in place by two set_attribute calls with arbitrary arguments; private tags parsed from 2 fully symbolic subtags. thorough adds: canonicalize on 3 subtags; -u- list with two attributes and one keyword (0..2 types), -t- list with tlang and one field, built in place',
-    outside='values with more than 2 variants / attributes, more than one keyword or tfield; a whole Locale in one string (extension order t, u, x: the three lists are decided separately, their concatenation in ExtensionsMap::fmt is one write! and is not under the solver); ExtensionsMap::other populated by hand; Display of parser results that carry maps (B-tree roots of merged parser results, DESIGN 10)',
+    bounds='quick: Display of every valid subtag; to_string of any language identifier with 0..2 variants vs reference serialiser + strict recogniser; token-level canonicalize on 2 fully symbolic subtags; -u- list built in place by two set_attribute calls with arbitrary arguments; private tags parsed from 2 fully symbolic subtags. thorough adds: canonicalize on 3 subtags',
+    outside='values with more than 2 variants / attributes; Display of keywords, tlang and tfields (the in-place-built harnesses c04_u_built_kw / c04_t_built gave no result in 17 min: not decided); a whole Locale in one string (extension order t, u, x: the three lists are decided separately, their concatenation in ExtensionsMap::fmt is one write! and is not under the solver); ExtensionsMap::other populated by hand; Display of parser results that carry maps (B-tree roots of merged parser results, DESIGN 10)',
 )
 PROPS["C05"] = P(
     jobs=[
@@ -358,7 +358,7 @@ PROPS["C09"] = P(
         J("c09_case_1", unwind=6, uw=mk(tok_uw(1), {r"recase|c09::": 10}), stubs=PARSER_STUBS, desc="1 x T9 vs the same subtag under a symbolic letter-case mask"),
         J("c09_case_2", unwind=6, uw=mk(tok_uw(2), {r"recase|c09::": 10}), stubs=PARSER_STUBS, desc="2 x T9 under a symbolic case mask", weight=3, mem_gb=12),
         J("c09_case_3", tier="t", unwind=6, uw=mk(tok_uw(3), {r"recase|c09::": 10}), stubs=PARSER_STUBS, desc="3 x T9 under a symbolic case mask", weight=4, mem_gb=20),
-        J("c09_variant_order", tier="t", unwind=6, uw=mk(tok_uw(4), {r"c09::": 10}), stubs=PARSER_STUBS, desc="[L,V1,V2] vs [L,V2,V1] vs [L,V1,V2,V1], all T9", weight=5, mem_gb=40),
+        J("c09_variant_order", tier="x", unwind=6, uw=mk(tok_uw(4), {r"c09::": 10}), stubs=PARSER_STUBS, desc="[L,V1,V2] vs [L,V2,V1] vs [L,V1,V2,V1], all T9", weight=5, mem_gb=40),
         J("c09_attr_order", unwind=6, uw=mk({r"c09::|recase": 10}, xuw(3)), stubs=EXT_STUBS, desc="-u- attributes [A1,A2] vs [A2,A1] (order), A1/A2 any 3 bytes; compared through attributes()", weight=3, mem_gb=16, cbmc=NOPTR),
         J("c09_attr_repeat", unwind=6, uw=mk({r"c09::|recase": 10}, xuw(3)), stubs=EXT_STUBS, desc="-u- attributes [A1,A2] vs [A1,A2,A1] (repetition), A1/A2 any 3 bytes; compared through attributes()", weight=3, mem_gb=16, cbmc=NOPTR),
         J("c09_sep_concrete", unwind=13, uw=mk({r"Split|position|c09::": 13}, tok_uw(3)), stubs=PARSER_STUBS, desc="the four '-'/'_' spellings of 'en-US-macos' through from_bytes (finite, enumerated)", weight=2),
@@ -370,8 +370,8 @@ PROPS["C09"] = P(
         J("c09_sep_langid", tier="x", unwind=18, uw=mk({r"Split|position|c09::": 18}, tok_uw(3)), stubs=PARSER_STUBS, desc="'en?Latn?US?macos' with every ? either '-' or '_' vs the all-'-' spelling, through from_bytes", weight=3, mem_gb=16),
         J("c09_separators_4", tier="x", unwind=8, uw=mk({r"Split|position|c09::": 7}, tok_uw(5)), stubs=PARSER_STUBS, desc="every byte string <= 4 bytes with '-'/'_' exchanged under a symbolic mask, through from_bytes", weight=4, mem_gb=16),
     ],
-    bounds="quick: letter case on 1..2 fully symbolic subtags of a language identifier (symbolic case mask per subtag) and on the -u- frame [3]; order and repetition of two -u- attributes (any 3 bytes each); the four separator spellings of 'en-US-macos'. thorough adds: case on 3 subtags and on the -u- frame [2,3]; variant order/repetition on [L,V1,V2]",
-    outside='order of -u- keywords / -t- fields with distinct keys, case inside -t- bodies, relative order of the -u- and -t- extensions (all need two map entries or the whole extension map: measured out of reach); symbolic separators in a full identifier (byte level, C02 thorough); to_string() equality is implied by value equality + C12 (x == y iff same string)',
+    bounds="quick: letter case on 1..2 fully symbolic subtags of a language identifier (symbolic case mask per subtag) and on the -u- frame [3]; order and repetition of two -u- attributes (any 3 bytes each); the four separator spellings of 'en-US-macos'. thorough adds: case on 3 subtags and on the -u- frame [2,3]",
+    outside='order / repetition of variant subtags as a metamorphic pair (out of memory at 24 GB; the canonical sorted-unique form is decided against the reference in C02 / C17 instead); order of -u- keywords / -t- fields with distinct keys, case inside -t- bodies, relative order of the -u- and -t- extensions (all need two map entries or the whole extension map: measured out of reach); symbolic separators in a full identifier (byte level, C02 thorough); to_string() equality is implied by value equality + C12 (x == y iff same string)',
 )
 PROPS["C10"] = P(
     jobs=[
